@@ -101,6 +101,17 @@ def pairs(rng):
     yield ("flat_line", "shorter durations / larger tolerance", "qartod.flat_line_test",
            {"inp": X, "tinp": Tr, "suspect_threshold": sL, "fail_threshold": fL, "tolerance": tolL},
            {"inp": X, "tinp": Tr, "suspect_threshold": sS, "fail_threshold": fS, "tolerance": tolS})
+    if n >= 3:
+        # decimal tolerances on either side of a power of ten, a wiggle just under the smaller one: the larger tolerance
+        # (stricter) still calls that stretch flat
+        unit = rng.choice([0.01, 0.1, 1.0, 10.0])
+        base_ = rng.choice([5.0, 20.0, -3.0])
+        xw = [base_ + (0.96 * unit if k % 2 else 0.0) for k in range(n)]
+        tolL, tolS = rng.choice([(0.97 * unit, unit), (0.97 * unit, 1.5 * unit), (0.965 * unit, 0.99 * unit)])
+        dS = rng.choice([D, 2 * D])
+        yield ("flat_line", "larger decimal tolerance", "qartod.flat_line_test",
+               {"inp": gen.arr(xw), "tinp": Tr, "suspect_threshold": dS, "fail_threshold": 2 * dS, "tolerance": tolL},
+               {"inp": gen.arr(xw), "tinp": Tr, "suspect_threshold": dS, "fail_threshold": 2 * dS, "tolerance": tolS})
     # attenuated signal
     ths = [0, 0.1, 0.25, 0.5, 1, 2, 5]
     for kind in ("std", "range"):
